@@ -12,6 +12,9 @@ FILES = {"src/client.rs": ["u_conn", "u_parse"], "src/request.rs": ["u_newreq", 
          "src/util/fused_reader.rs": ["u_readers"], "src/util/messages_queue.rs": ["u_queue"], "src/util/task_pool.rs": ["u_pool", "u_worker"],
          "src/util/refined_tcp_stream.rs": ["u_tcp"], "src/util/mod.rs": ["u_cte"]}
 SWAP = {("<", "="): "<", (">", "="): ">"}
+def f_is_table(src, pos):
+    """a `NNN => "reason phrase"` arm: outside every property"""
+    return re.match(r'[0-9]+ => "', src[pos:pos + 12]) is not None
 def sites(src):
     toks = L.tokenize(src)
     sg = [i for i, t in enumerate(toks) if t.kind not in ("ws", "comment", "doc")]
@@ -36,7 +39,7 @@ def sites(src):
         if t.kind == "ident" and t.text in ("true", "false"):
             rep(i, i, "false" if t.text == "true" else "true", "%s flipped" % t.text)
         if t.kind == "num" and re.match(r"^[0-9]+$", t.text) and pv is not None and pv.text not in (".", "(") or (t.kind == "num" and t.text in ("1024", "8192", "4096")):
-            if re.match(r"^[0-9]+$", t.text) and int(t.text) < 100000 and not (pv is not None and pv.text == "."):
+            if re.match(r"^[0-9]+$", t.text) and int(t.text) < 100000 and not (pv is not None and pv.text == ".") and not (nx is not None and nx.text == "=" and "Some(" not in src[t.pos - 6:t.pos] and f_is_table(src, t.pos)):
                 rep(i, i, str(int(t.text) + 1), "%s -> %d" % (t.text, int(t.text) + 1))
         # a whole statement `...ok();` / `.send(..)..;` dropped
         if t.kind == "ident" and t.text in ("notify_one", "notify_all", "flush", "send") and pv is not None and pv.text == ".":
@@ -72,7 +75,10 @@ def main():
     env = "CARGO_NET_OFFLINE=true CARGO_TARGET_DIR=%s/target" % tmp
     sh("%s cargo test --workspace --no-run --offline" % env, repo, 900)
     cands = []
+    only = os.environ.get("VERIF_SWEEP_FILES")
     for f in FILES:
+        if only and f not in only.split(","):
+            continue
         src = open(os.path.join(repo, f)).read()
         for s in sites(src):
             cands.append((f,) + s)
@@ -107,7 +113,7 @@ def main():
             print("%3d/%d %-18s %s:%d %s | %s" % (n + 1, len(cands), rec["status"], f, line, what, rec["text"]), flush=True)
     finally:
         shutil.rmtree(tmp, ignore_errors=True)
-    json.dump(res, open(os.path.join(HERE, ".work", "mutation_sweep.json"), "w"), indent=1)
+    json.dump(res, open(os.path.join(HERE, ".work", "mutation_sweep-%s.json" % os.environ.get("VERIF_SEED", "1")), "w"), indent=1)
     from collections import Counter
     print(Counter(r["status"] for r in res))
 main()
